@@ -297,9 +297,10 @@ pub fn check_case(case: &Case01, rng_cap: usize, rep: &mut Report) -> bool {
                 let detail = classify(case, &orc, wline, invert);
                 let sig = if detail
                     == ":unicode-word-boundary-next-to-invalid-utf8"
+                    || detail
+                        == ":regex-engine-optimised-search-differs-from-nfa-simulation"
                 {
-                    "C01:unicode-word-boundary-next-to-invalid-utf8"
-                        .to_string()
+                    format!("C01{}", detail)
                 } else {
                     format!(
                         "C01:{}:{}:{}{}{}",
@@ -356,6 +357,14 @@ fn classify(
         Some(l) => l,
         None => return String::new(),
     };
+    // Known regex-library defect: the optimised meta engine (what ripgrep's
+    // matcher runs) and the plain NFA simulation of the same library give
+    // different matches on this input, for the wrapped pattern or for
+    // ripgrep's own final HIR.
+    if orc.engine_disagrees(&case.input) {
+        return ":regex-engine-optimised-search-differs-from-nfa-simulation"
+            .into();
+    }
     // Known regex-engine quirk: a Unicode word boundary assertion decodes
     // the preceding bytes; next to invalid UTF-8 its answer depends on bytes
     // further back (regex-automata's backward decoder accepts a shorter
